@@ -260,6 +260,12 @@ func (ds *dataSet) TruncateGap() (*dataSetRdb, []*dataSetAof) {
 		}
 	}
 
+	// a snapshot can only be continued by a log that starts at its offset
+	if ds.rdb != nil && len(ds.aofSegs) > 0 && ds.aofSegs[0].Left() != ds.rdb.Left() {
+		rdb = ds.rdb
+		ds.rdb = nil
+	}
+
 	ds.aofMap = make(map[int64]*dataSetAof)
 	for _, a := range ds.aofSegs {
 		ds.aofMap[a.left] = a
